@@ -56,7 +56,11 @@ type plan struct {
 	NoAuctions bool `json:"no_auctions,omitempty"`
 }
 
-var opKinds = []string{"lookup", "lookup", "lookup-nil", "auction", "auction", "auction", "bid", "bid-foreign", "vregs", "round", "round-direct", "refresh", "refresh", "prepare"}
+var opKinds = []string{"lookup", "lookup", "lookup-nil", "auction", "auction", "auction", "bid", "bid-foreign", "bid-shared", "vregs", "round", "round-direct", "refresh", "refresh", "prepare"}
+
+// AtomicityClauses: also judge outcomes that no sequential order of overlapping requests produces (set by the
+// C17 wrapper; they are not part of C12's statement).  Reported with the "C17/non-sequential/" prefix.
+var AtomicityClauses = false
 
 func genDoc(p *simrt.Tape, o relaysim.GenOpts, badPct int) *relaysim.Doc {
 	var d *relaysim.Doc
@@ -130,6 +134,17 @@ func genPlan(p *simrt.Tape, noAuctions bool) any {
 			}
 		}
 		pl.Clients = append(pl.Clients, ops)
+	}
+	if !noAuctions && nc >= 2 && p.Pct(25) {
+		// two beacon nodes ask for the same builder bid at the same instant
+		at, val := bursts[p.Pick(len(bursts))], p.Pick(len(ws.Vals))
+		for c := 0; c < 2; c++ {
+			pl.Clients[c] = append(pl.Clients[c], op{At: at, Kind: "bid-shared", Val: val})
+			ops := pl.Clients[c]
+			for i := len(ops) - 1; i > 0 && ops[i].At < ops[i-1].At; i-- {
+				ops[i], ops[i-1] = ops[i-1], ops[i]
+			}
+		}
 	}
 	o.Unresolvable = 0
 	pl.Final = relaysim.GenGoodDoc(p, o)
@@ -252,6 +267,9 @@ func exec(plAny any, sched *simrt.Tape) *sim.Outcome {
 				_, r.err = w.Svc.AuctionBlock(svcCtx, phase0.Slot(1000+r.client), phase0.Hash32{byte(r.client)}, v.PubKey)
 			case "bid":
 				_, r.err = w.Svc.BuilderBid(svcCtx, phase0.Slot(1000+r.client), phase0.Hash32{byte(r.client)}, v.PubKey)
+			case "bid-shared":
+				// the same (slot, parent, validator) as asked for by other beacon nodes (clients)
+				_, r.err = w.Svc.BuilderBid(svcCtx, phase0.Slot(3000), phase0.Hash32{0xee}, v.PubKey)
 			case "bid-foreign":
 				_, r.err = w.Svc.BuilderBid(svcCtx, phase0.Slot(2000+r.client), phase0.Hash32{byte(r.client)}, relaysim.RelayPub(30+r.Val))
 			case "vregs":
@@ -447,6 +465,24 @@ func oracle(pl *plan, w *relaysim.World, recs []*opRec, finalInstalled time.Dura
 		}
 		return Viol("C12/not-last-good-config", "%s for %s in [%v,%v]: %s%s matches none of the %d configurations that can be in force (%s)",
 			what, val.Name, tc, tr, relaysim.Canon(got, nil), e, len(cands), strings.Join(why, " | "))
+	}
+	// requests for one builder bid from several beacon nodes: once an auction for it has completed, its result is
+	// served to everybody; a second completed auction for the same (slot, parent, validator) is the outcome of no
+	// sequential order of the requests
+	if AtomicityClauses && w.Bids != nil {
+		type key struct {
+			pub phase0.BLSPubKey
+		}
+		n := map[key]int{}
+		for _, a := range w.Bids.Auctions {
+			if a.Slot == 3000 && a.EndStep != 0 && !a.Failed {
+				n[key{a.Pub}]++
+				if n[key{a.Pub}] > 1 {
+					return Viol("C17/non-sequential/second-auction-for-one-builder-bid", "the auction for the builder bid (slot 3000, one parent, one validator) completed %d times; the second request must have been served the first one's result", n[key{a.Pub}])
+				}
+			}
+		}
+		out.Probes["shared-bid-auctions-counted"] += len(n)
 	}
 	// what a registration round tells a relay stems from a configuration in force during the round
 	// (a registration signed under a superseded configuration must not be served from a cache)
